@@ -66,6 +66,7 @@ static int in_callback;
 static int op_real;                /* inside vbi_decode */
 static long n_callbacks, n_events, n_actions_cb, n_actions_main;
 static int ttx_flips;              /* number of times the union's TTX_PAGE bit changed */
+static int window_outside_ttx_cb;  /* TTX_PAGE bit of the union after the last action not taken inside a TTX_PAGE callback */
 static int page_events[0x900];
 static unsigned sig_seen[4][8][3][MAXGROUPS + 1][2];
 static char hist[2048];
@@ -333,6 +334,8 @@ static void do_action(const struct action *a, struct inst *self, int group)
 	}
 	if (!ok) vf_fail("model:C11:register-failed", "%s returned FALSE", op_name[a->op]);
 	if ((before ^ m_union()) & VBI_EVENT_TTX_PAGE) ttx_flips++;
+	/* the window as it stands after the last action taken outside a TTX_PAGE callback (see tx_page_in_frame) */
+	if (!(self && cur.open && cur.type == VBI_EVENT_TTX_PAGE)) window_outside_ttx_cb = !!(m_union() & VBI_EVENT_TTX_PAGE);
 	if (rel != R_MAIN)
 		sig_seen[a->op][rel][pos][group > MAXGROUPS ? MAXGROUPS : group][cur.source] = 1;
 	vf_phase(op_real ? "vbi_decode" : "vbi_send_event");
@@ -405,6 +408,69 @@ static void tx_page(int pgno, int rows)
 	vf_count("pages_transmitted", 1);
 }
 
+/* One frame (a single vbi_decode call) that carries a line raising events - the second reception of a VPS
+ * line: NETWORK, NETWORK_ID, PROG_ID - and behind it a complete page.  The callbacks of those events run while
+ * the frame is being decoded; when they open or close the TTX_PAGE window the page lines of the same frame are
+ * already inside the new window ("acquired exactly while at least one handler requests them").  The closing
+ * header raises the page's own TTX_PAGE event after the page has been stored, so what its callbacks do to the
+ * window does not concern this page. */
+static void tx_page_in_frame(struct vf_rng *r, int pgno, int rows)
+{
+	vbi_sliced sl[8];
+	uint8_t p[42], vps[13];
+	struct tx_vps t = { 0xDC2 /* the one station of this harness: no network change */, (unsigned)((5u << 15) | (6u << 11) | ((unsigned)vf_range(r, 0, 23) << 6) | 15u), 1, 0x40 };
+	int n = 0, k, en, flips0 = ttx_flips;
+	void *cn0;
+	static int last_format;
+	int use_wss = vf_chance(r, 1, 2);
+	memset(sl, 0, sizeof sl);
+	if (use_wss) {
+		/* the fourth identical WSS word with a new format raises ASPECT (and PROG_INFO): events that are not
+		   derived from Teletext, so possibly the only ones requested when the frame begins */
+		struct tx_wss w; uint8_t b[2]; int i;
+		memset(&w, 0, sizeof w);
+		last_format = (last_format + 1 + (int)vf_below(r, 7)) % 8;
+		w.format = last_format; w.film = (int)vf_below(r, 2);
+		tx_wss(b, &w);
+		for (i = 0; i < 3; i++) decode_line(VBI_SLICED_WSS_625, 23, b, 2);
+		sl[n].id = VBI_SLICED_WSS_625; sl[n].line = 23; memcpy(sl[n].data, b, 2); n++;
+	} else {
+		memset(vps, 0, sizeof vps);
+		tx_vps(vps, &t);
+		decode_line(VBI_SLICED_VPS, 16, vps, 13);            /* first reception, alone */
+		sl[n].id = VBI_SLICED_VPS; sl[n].line = 16; memcpy(sl[n].data, vps, 13); n++;
+	}
+	cn0 = vbi->cn;
+	tx_ttx_header(p, pgno, 0, 0, 0, "C11 HEADER                      ");
+	sl[n].id = VBI_SLICED_TELETEXT_B; sl[n].line = 7; memcpy(sl[n].data, p, 42); n++;
+	for (k = 1; k <= rows; k++) {
+		tx_ttx_row(p, (pgno >> 8) & 7, k, "IN ONE FRAME WITH VPS");
+		sl[n].id = VBI_SLICED_TELETEXT_B; sl[n].line = (uint32_t)(7 + k); memcpy(sl[n].data, p, 42); n++;
+	}
+	tx_ttx_header(p, (pgno & 0x700) | 0xFF, 0x3F7F, 0, 0, "C11 HEADER                      ");
+	sl[n].id = VBI_SLICED_TELETEXT_B; sl[n].line = 20; memcpy(sl[n].data, p, 42); n++;
+	window_outside_ttx_cb = !!(m_union() & VBI_EVENT_TTX_PAGE);
+	hist_add("| frame[%s,page(%x)] ", use_wss ? "wss" : "vps", pgno);
+	ev_close();
+	op_real = 1;
+	vf_phase("vbi_decode");
+	now += 0.04;
+	vbi_decode(vbi, sl, n, now);
+	op_real = 0;
+	ev_close();
+	en = window_outside_ttx_cb;
+	if (n_pages < 64) {
+		pages[n_pages].pgno = pgno;
+		pages[n_pages].enabled = en;
+		pages[n_pages].valid = 1;
+		if (cn0 != (void *)vbi->cn) { int i; for (i = 0; i <= n_pages; i++) pages[i].valid = 0; vf_count("guard_cache_network_replaced", 1); }
+		n_pages++;
+	}
+	vf_count("pages_transmitted", 1);
+	vf_count("pages_in_frame_with_event_line", 1);
+	if (flips0 != ttx_flips) vf_count("pages_in_frame_window_changed_by_callback", 1);
+}
+
 static void check_pages(void)
 {
 	int i;
@@ -449,7 +515,7 @@ static void real_input(struct vf_rng *r, int *next_page)
 		*next_page = pg + 1;
 		if ((*next_page & 15) > 9) *next_page += 6;
 		if ((*next_page & 0xF0) > 0x90) *next_page += 0x60;
-		if (pg <= 0x799) tx_page(pg, vf_range(r, 1, 3));
+		if (pg <= 0x799) { if (vf_chance(r, 1, 3)) tx_page_in_frame(r, pg, vf_range(r, 1, 3)); else tx_page(pg, vf_range(r, 1, 3)); }
 		break;
 	}
 	case 3: {       /* VPS, ZDF, received twice -> NETWORK (first time), NETWORK_ID, PROG_ID */
